@@ -8,6 +8,7 @@ from ..lib import call
 
 PROP = "C01"
 PLAN = {"quick": (2400, 150), "thorough": (36000, 1500)}
+LARGE = (0.04, 64)  # (share, largest size) of the large class of gen.kv: 17+ control points, degree up to 8
 RULE = ("case = (knot vector, control points, optional weights, number type, probe parameters); enumerated multiplicity "
         "patterns (p<=4, <=3 interior knots, 300 patterns) x knot-value sets x {polynomial, rational} x {Fraction, float} "
         "first, then random curves incl. degree 0, multiplicity p+1, intervals with negative knots and 0 interior; "
